@@ -88,6 +88,15 @@ fn attack_engine(args: &[String]) -> i32 {
             Ok(v) => v,
             Err(p) => json!({"honest": "setup_panic", "detail": p}),
         };
+        if kind == "transcript" {
+            r = wfcommon::util::catch(|| match (case.field.as_str(), case.hash.as_str()) {
+                ("f64", "blake3_256") => attack::transcript::<B64, Blake3_256<B64>, B64>(&case),
+                ("f64", "rp64_256") => attack::transcript::<B64, Rp64_256, B64>(&case),
+                ("f128", "blake3_256") => attack::transcript::<B128, Blake3_256<B128>, B128>(&case),
+                _ => json!({"verdict": "unsupported_combo"}),
+            })
+            .unwrap_or_else(|p| json!({"verdict": "setup_panic", "detail": p}));
+        }
         r["i"] = json!(i);
         r["kind"] = json!(kind);
         out.emit(&r);
